@@ -83,10 +83,13 @@ _TAGS = {
     ("yaql.standard_library.collections", "int_by_list"): "PRepSeq",
     ("yaql.standard_library.collections", "in_"): "PCollIn",
     ("yaql.standard_library.collections", "combine_lists"): "PSeqConcat",
+    ("yaql.standard_library.collections", "difference"): "PSetDiff",
+    ("yaql.standard_library.collections", "combine_dicts"): "PDictAdd",
 }
 for _n, _c in _CMP.items():
     _TAGS[("yaql.standard_library.math", _n)] = "(PNumCmp %s)" % _c
     _TAGS[("yaql.standard_library.strings", _n)] = "(PStrCmp %s)" % _c
+    _TAGS[("yaql.standard_library.collections", "set_" + _n)] = "(PSetCmp %s)" % _c
     _TAGS[("yaql.standard_library.common", "left_%s_null" % _n)] = "(PLeftNull %s)" % _c
     _TAGS[("yaql.standard_library.common", "null_%s_right" % _n)] = "(PNullRight %s)" % _c
     _TAGS[("yaql.standard_library.common", "null_%s_null" % _n)] = "(PNullNull %s)" % _c
@@ -102,6 +105,7 @@ def payload_key(payload):
 _ALL = frozenset(KINDS)
 _SETS = {"NUM": frozenset(["KInt", "KFloat"]), "STR": frozenset(["KStr"]), "INT": frozenset(["KInt"]),
          "SEQ": frozenset(["KList", "KTuple"]), "NULL": frozenset(["KNull"]),
+         "SET": frozenset(["KSet"]), "DICT": frozenset(["KDict"]),
          "NONNULL": _ALL - frozenset(["KNull"]), "ANY": _ALL}
 _ROLES = {
     ("#operator_+", ("NUM", "NUM")): "PNumAdd", ("#operator_+", ("STR", "STR")): "PStrConcat",
@@ -112,10 +116,12 @@ _ROLES = {
     ("#operator_in", ("STR", "STR")): "PStrIn", ("*equal", ("ANY", "ANY")): "PEq", ("*not_equal", ("ANY", "ANY")): "PNeq",
     ("#unary_operator_+", ("NUM",)): "PNumPos", ("#unary_operator_-", ("NUM",)): "PNumNeg",
     ("#unary_operator_not", ("ANY",)): "PNot",
+    ("#operator_-", ("SET", "SET")): "PSetDiff", ("#operator_+", ("DICT", "DICT")): "PDictAdd",
 }
 for _sp, _c in (("<", "CLt"), ("<=", "CLe"), (">", "CGt"), (">=", "CGe")):
     _ROLES[("#operator_" + _sp, ("NUM", "NUM"))] = "(PNumCmp %s)" % _c
     _ROLES[("#operator_" + _sp, ("STR", "STR"))] = "(PStrCmp %s)" % _c
+    _ROLES[("#operator_" + _sp, ("SET", "SET"))] = "(PSetCmp %s)" % _c
     _ROLES[("#operator_" + _sp, ("NONNULL", "NULL"))] = "(PLeftNull %s)" % _c
     _ROLES[("#operator_" + _sp, ("NULL", "NONNULL"))] = "(PNullRight %s)" % _c
     _ROLES[("#operator_" + _sp, ("NULL", "NULL"))] = "(PNullNull %s)" % _c
